@@ -427,4 +427,126 @@ theorem run_refines (ops : List ROp) : ∀ {r : R} {a a' : Reader} {outs : List 
         obtain ⟨r2, e2, h2⟩ := ih h1 hr2 (hnext r1 o e1)
         exact ⟨r2, by simp [run, e1, e2], h2⟩
 
+
+/-- one abstract step adds exactly the delivered bytes and the consumed count of that op -/
+theorem spec_step_history {a a' : Reader} {op : ROp} {o : ROut} (hs : a.step op = some (a', o)) :
+    a'.received = a.received ++ delivered [op] ∧ a'.consumed = a.consumed + consumedBy [op] := by
+  cases op with
+  | wait k =>
+    simp only [Reader.step] at hs
+    split at hs <;> simp at hs
+    obtain ⟨rfl, _⟩ := hs
+    simp [delivered, consumedBy]
+  | peek =>
+    simp only [Reader.step, Option.some.injEq, Prod.mk.injEq] at hs
+    obtain ⟨rfl, _⟩ := hs
+    simp [delivered, consumedBy]
+  | consume j =>
+    simp only [Reader.step] at hs
+    split at hs
+    · simp at hs
+    · split at hs
+      · simp at hs
+      · simp only [Option.some.injEq, Prod.mk.injEq] at hs
+        obtain ⟨rfl, _⟩ := hs
+        simp [delivered, consumedBy]
+  | cancel =>
+    simp only [Reader.step, Option.some.injEq, Prod.mk.injEq] at hs
+    obtain ⟨rfl, _⟩ := hs
+    simp [delivered, consumedBy]
+  | fire =>
+    simp only [Reader.step] at hs
+    split at hs
+    · split at hs
+      · simp only [Option.some.injEq, Prod.mk.injEq] at hs
+        obtain ⟨rfl, _⟩ := hs
+        simp [delivered, consumedBy]
+      · simp at hs
+    · simp at hs
+  | net ev =>
+    simp only [Reader.step] at hs
+    split at hs
+    · simp at hs
+    · split at hs
+      · simp at hs
+      · cases ev with
+        | err =>
+          simp only [Option.some.injEq, Prod.mk.injEq] at hs
+          obtain ⟨rfl, _⟩ := hs
+          simp [delivered, consumedBy]
+        | eof =>
+          simp only [Option.some.injEq, Prod.mk.injEq] at hs
+          obtain ⟨rfl, _⟩ := hs
+          simp [delivered, consumedBy]
+        | data d =>
+          simp only at hs
+          split at hs
+          · simp at hs
+          · split at hs <;>
+            · simp only [Option.some.injEq, Prod.mk.injEq] at hs
+              obtain ⟨rfl, _⟩ := hs
+              simp [delivered, consumedBy]
+
+theorem delivered_cons (op : ROp) (ops : List ROp) : delivered (op :: ops) = delivered [op] ++ delivered ops := by
+  cases op with
+  | net ev => cases ev <;> simp [delivered]
+  | _ => simp [delivered]
+
+theorem consumedBy_cons (op : ROp) (ops : List ROp) : consumedBy (op :: ops) = consumedBy [op] + consumedBy ops := by
+  cases op <;> simp [consumedBy]
+
+/-- the abstract reader's `received`/`consumed` are the plain history of the op sequence -/
+theorem spec_history (ops : List ROp) : ∀ {a a' : Reader} {outs : List ROut}, a.run ops = some (a', outs) →
+    a'.received = a.received ++ delivered ops ∧ a'.consumed = a.consumed + consumedBy ops := by
+  induction ops with
+  | nil =>
+    intro a a' outs h
+    simp only [Reader.run, Option.some.injEq, Prod.mk.injEq] at h
+    obtain ⟨rfl, _⟩ := h
+    simp [delivered, consumedBy]
+  | cons op ops ih =>
+    intro a a' outs h
+    simp only [Reader.run] at h
+    split at h
+    · simp at h
+    · rename_i a1 o hs
+      split at h
+      · simp at h
+      · rename_i a2 os hr
+        simp only [Option.some.injEq, Prod.mk.injEq] at h
+        obtain ⟨rfl, _⟩ := h
+        obtain ⟨h1, h2⟩ := spec_step_history hs
+        obtain ⟨h3, h4⟩ := ih hr
+        rw [h3, h4, h1, h2, delivered_cons op ops, consumedBy_cons op ops]
+        simp [List.append_assoc, Nat.add_assoc]
+
+theorem transportOK_of_b (ops : List ROp) : ∀ (r : R), transportOKb r ops = true → transportOK r ops := by
+  induction ops with
+  | nil => intro _ _; trivial
+  | cons op ops ih =>
+    intro r h
+    simp only [transportOKb, Bool.and_eq_true] at h
+    obtain ⟨hf, hn⟩ := h
+    refine ⟨?_, ?_⟩
+    · cases op with
+      | net ev =>
+        cases ev with
+        | data d =>
+          intro off len min hreq
+          simp only [fitsb, hreq, Bool.and_eq_true, decide_eq_true_eq] at hf
+          exact hf
+        | _ => trivial
+      | _ => trivial
+    · intro r' o e
+      rw [e] at hn
+      exact ih r' hn
+
+
+/-- for concrete examples: the hypotheses of the property theorems from two evaluations -/
+theorem hyps_of_eval {ops : List ROp} (h1 : (Reader.init.run ops).isSome = true)
+    (h2 : transportOKb init ops = true) :
+    (∃ a outs, Reader.init.run ops = some (a, outs)) ∧ transportOK init ops := by
+  obtain ⟨⟨a, outs⟩, e⟩ := Option.isSome_iff_exists.1 h1
+  exact ⟨⟨a, outs, e⟩, transportOK_of_b _ _ h2⟩
+
 end Percival.Proofs.NetbufRead
